@@ -201,7 +201,7 @@ func (b *SttsBox) GetSampleNrAtTime(sampleStartTime uint64) (sampleNr uint32, er
 		accTime += timeDelta * uint64(b.SampleCount[i])
 	}
 	// Check if there is a final single zero duration and time matches.
-	if b.SampleTimeDelta[nrEntries-1] == 0 && b.SampleCount[nrEntries-1] == 1 &&
+	if nrEntries > 0 && b.SampleTimeDelta[nrEntries-1] == 0 && b.SampleCount[nrEntries-1] == 1 &&
 		sampleStartTime == accTime {
 		return accNr, nil
 	}
